@@ -459,7 +459,7 @@ class _ScopeContext:
 
                 gen.send(False)  # we processed this node here so don't recurse into it
 
-            elif a.__class__ is Lambda:  # any NamedExpr.target inside a Lambda belongs to the scope of that Lambda and not to ours
+            elif f.pfield.name == 'body' and f.parent.a.__class__ is Lambda:  # any NamedExpr.target inside a Lambda body belongs to the scope of that Lambda and not to ours, the defaults are evaluated in our scope though
                 gen.send(False)
 
 _SCOPE_WALK_FUNCS = {  # the boolean indicates whether it is a normal function or a generator
